@@ -6,3 +6,19 @@ claim("C20",
       note="Assumes A1 (floats are reals), A2, A6, A7 (numpy slicing/full/empty/abs/sum as modelled; ghost Sum lemma instances), A9. "
            "same_rows weight padding and use_all_past=True are not asserted (see evidence not_applicable_clauses).",
       technique="deductive verification: VCs from the real AST + loop invariants, z3")
+claim("C17",
+      text="Proof for all n>=1, alpha>0, n_estimators>=0, weights: the resampling closure draws round(alpha*n) indices from exactly [0,n) "
+           "(randint contract), the same index vector selects X, y and weights, one fit per cloned estimator, fit returns self; predict_all column i "
+           "is model i's prediction; predict_sorted rows are non-decreasing permutations of those predictions (loop invariants). "
+           "Bounded stand-in with a recording regressor for mean / min<=predict<=max.",
+      note="Assumes numpy.random.randint is uniform on [low,high) and raises when high<=low, the estimator protocol (fit returns the receiver, predict is a "
+           "function of fitted state and row), numpy.sort = sorted permutation, clone = fresh unfitted copy, A8 for joblib. predict = row mean is bounded only.",
+      technique="deductive verification: contracts on the resampling closure, fit, predict_all, predict_sorted; z3")
+claim("C05",
+      text="Proof for all q in (0,1), data, weights: _epsilon (residual, per-sign multiplier), score = twice the (weighted) mean pinball loss of the model's own "
+           "quantile / mean_absolute_error at q=0.5 (ghost Sum congruence), compute_z = IRLS weight (1-mult)/max(|res|,delta) with the asymmetric weight on the "
+           "prescribed side, loop invariant of fit: every re-weighting is IRLS weight x sample_weight, n_iter_ < max_iter, intercept/positive data flow, "
+           "hyper-parameters unchanged, fit returns self. Bounded: exact score comparison, weights vs repeated rows at q=0.5.",
+      note="A1 (reals; nonlinear arithmetic decided by z3), assumed LinearRegression contract (coef_ has one entry per column, positive=True gives non-negative "
+           "coefficients), Sum lemma instances. Optimality / 'fraction q below' are not claimed (not applicable).",
+      technique="deductive verification: postconditions + loop invariant from the real AST, z3 (nlsat for q*e)")
